@@ -388,9 +388,28 @@ def gen_function(rng, name, nout):
 
 
 def gen_ifdep_statement(rng):
-    """an if-statement that is legal Modelica but outside what exitIfStatement translates faithfully"""
+    """if-statements whose translation needs the full sequential treatment (conditions on the pre-if
+    values, all variables updated simultaneously)"""
     g = FGen(rng, ["u", "w", "a", "b"])
-    if rng.random() < 0.5:      # the condition reads a variable assigned in the branches
+    x = rng.random()
+    if x < 0.5:
+        # the condition reads `a`, which every branch updates FIRST and by so much that the update
+        # flips the condition; the later variables' branch values read nothing assigned before them
+        # and differ between the branches, so a condition evaluated on the updated `a` is visible
+        gi = FGen(rng, ["u", "w"])
+        c0 = ["num", rng.choice(["0", "0.5", "1", "2"])]
+        d = ["num", rng.choice(["1000", "2000"])]
+        gt = rng.random() < 0.5
+        cond = ["bin", ">" if gt else "<", ["var", "a"], c0]
+        down = ["assign", "a", ["bin", "-", ["var", "a"], d]]
+        up = ["assign", "a", ["bin", "+", ["var", "a"], d]]
+        thn = [down if gt else up, ["assign", "b", ["bin", "+", ["num", "5000"], gi.real(1)]]]
+        els = [up if gt else down, ["assign", "b", gi.real(1)]]
+        if rng.random() < 0.4:
+            thn.append(["assign", "t", ["bin", "-", gi.real(1), ["num", "7000"]]])
+            els.append(["assign", "t", gi.real(1)])
+        return ["ifst", [[cond, thn]], els]
+    if x < 0.75:      # the condition reads a variable assigned in the branches
         return ["ifst", [[["bin", rng.choice([">", "<"]), ["var", "a"], g.real(0)],
                           [["assign", "a", ["bin", "-", ["var", "a"], ["num", rng.choice(["5", "3", "2.5"])]]], ["assign", "b", g.real(1)]]]],
                 [["assign", "a", ["var", "a"]], ["assign", "b", g.real(1)]]]
@@ -1581,7 +1600,7 @@ def run(ctx):
         ctx.oblige("tie:T3-shape-recognised", False, str(e))
 
     # ---- S3: models ---------------------------------------------------------------------------
-    n_plain = int(os.environ.get("C11_N", 0)) or ctx.scaled(110, 1200)
+    n_plain = int(os.environ.get("C11_N", 0)) or ctx.scaled(90, 1200)
     n_ne = ctx.scaled(6, 40)
     n_r3 = ctx.scaled(6, 40)
     n_eo = ctx.scaled(4, 30)
@@ -1597,14 +1616,14 @@ def run(ctx):
     for _ in range(n_eo):
         models.append(finalize(gen_model(ctx.rng, "emptyoff"), ctx.rng, npts))
     n_fun = ctx.scaled(18, 150)
-    n_mat = ctx.scaled(40, 400)
+    n_mat = ctx.scaled(34, 400)
     for _ in range(n_fun):
         base = finalize(gen_fun_model(ctx.rng), ctx.rng, npts)
         for opt in (None, {"inline_functions": False}, {"unroll_loops": False}):
             mm = dict(base)
             mm["options"] = opt
             models.append(mm)
-    for _ in range(ctx.scaled(6, 40)):
+    for _ in range(ctx.scaled(9, 60)):
         mm = finalize(gen_fun_model(ctx.rng, ifdep=True), ctx.rng, npts)
         mm["stream"] = "ifdep"
         models.append(mm)
